@@ -12,6 +12,7 @@ package main
 import (
 	"fmt"
 	"go/types"
+	"os"
 	"sort"
 	"strings"
 
@@ -52,6 +53,9 @@ func (e *Exec) resolveInvoke(st *State, fr *Frame, cc *ssa.CallCommon, recv *Val
 	}
 	fn := e.W.Prog.MethodValue(sel)
 	if fn == nil || len(fn.Blocks) == 0 || !e.inModule(fn) {
+		if traceOn {
+			fmt.Fprintf(os.Stderr, "trace: resolveInvoke %s.%s failed: fn=%v blocks=%d\n", T, cc.Method.Name(), fn != nil, func() int { if fn == nil { return -1 }; return len(fn.Blocks) }())
+		}
 		return false
 	}
 	rv := &Value{T: T, L: []*Term{v.Args[1]}}
@@ -364,9 +368,9 @@ func genPatch(w *World, e *Exec, kinds []nodeKind, nodeT types.Type) {
 		pt := types.NewPointer(kd.T)
 		oldObj := FreshPre(st, "old")
 		newObj := FreshPre(st, "new")
-		st.Assume(Not(Eq(LObj(oldObj), LObj(newObj))))
-		st.Assume(Not(Eq(LObj(slot.One()), LObj(newObj))))
-		st.Assume(Not(Eq(LObj(slot.One()), LObj(oldObj))))
+		AssumeDistinctObjs(st, oldObj, newObj)
+		AssumeDistinctObjs(st, slot.One(), newObj)
+		AssumeDistinctObjs(st, slot.One(), oldObj)
 		st.Store(slot.One(), VCtor("VPtr", typeCodeTerm(pt), oldObj))
 		newV := &Value{T: nodeT, L: []*Term{VCtor("VPtr", typeCodeTerm(pt), newObj)}}
 		// base is the first field: leaves loc.Line, loc.Column, nodeType
@@ -393,6 +397,7 @@ func genPatch(w *World, e *Exec, kinds []nodeKind, nodeT types.Type) {
 func FreshPre(st *State, tag string) *Term {
 	po := Fresh("pre_"+tag, SInt)
 	preObjLeaves[po] = true
+	nonZeroLeaves[po] = true
 	l := MkLoc(po, IntLit(0), BV64(0))
 	st.KnownLoc(l)
 	st.pc = append(st.pc, App(">", SBool, po, IntLit(0)))
